@@ -24,7 +24,7 @@ ASSUMPTIONS = ['NLA: the site is the reference coordinate of the C of CATG; CHIC
                'cycle-shifted reads are simulated without soft clip']
 MIN_NONTRIVIAL = {'quick': 3000, 'thorough': 150000}
 REQUIRED_MONITORS = ['obs:nla_fragments', 'obs:chic_fragments', 'obs:cycle_shift', 'obs:motif_broken', 'obs:clipped', 'mirror:fragments',
-                     'cli:records_checked', 'obs:invert_strand', 'obs:single_end', 'obs:sites_at_contig_ends', 'obs:fragments_with_site_0']
+                     'cli:records_checked', 'obs:invert_strand', 'obs:single_end', 'obs:sites_at_contig_ends', 'obs:fragments_with_site_0', 'molecule:family_sites_compared']
 SHARD_TIMEOUT = {'quick': 900, 'thorough': 5400}
 
 
@@ -135,12 +135,20 @@ def run_case(case):
                 j = s.find('CATG', j + 1)
         else:
             sites += [(name, r.randrange(500, ln - 500)) for _ in range(n_sites)]
+    family_of = {}
     for name, pos in sites + edge_sites:
-        for _ in range(r.randint(1, 4)):
+        # scCHIC: a family of copies of one molecule (same cell, UMI, strand) whose cuts lie within 5 bp of each other - with an assignment
+        # radius they are one molecule and the molecule rewrites their site tag
+        fam = None
+        if method == 'chic' and (name, pos) not in edge_sites and r.random() < 0.5:
+            fam = {'cell': r.randint(1, 3), 'umi': F.rand_dna(r, 3), 'reverse': r.random() < 0.5, 'id': len(family_of) + 1000 * len(recs)}
+        for _ in range(r.randint(1, 4) if fam is None else r.randint(2, 4)):
             kind = r.choice(['plain'] * 4 + ['clip', 'clip', 'shift', 'broken', 'single'])
             reverse = r.random() < 0.5
             if (name, pos) in edge_sites:
                 reverse = pos > 10      # only the strand that points into the contig yields a fragment
+            if fam is not None:
+                kind, reverse = 'plain', fam['reverse']
             kw = {}
             if kind == 'clip':
                 kw['clip'] = r.randint(1, 6)
@@ -150,11 +158,14 @@ def run_case(case):
                 kw['motif_ok'] = False
             if kind == 'single':
                 kw['single_end'] = True
-            fr, tr = F.make_fragment(gen, r, rid, case['i'] + 1, method, r.randint(1, 3), name, pos, reverse, F.rand_dna(r, 3),
+            fr, tr = F.make_fragment(gen, r, rid, case['i'] + 1, method, r.randint(1, 3) if fam is None else fam['cell'], name,
+                                     pos if fam is None else pos + r.randint(0, 5), reverse, F.rand_dna(r, 3) if fam is None else fam['umi'],
                                      r.randint(60, 300), chic_trimmed=trimmed, mismatches=r.choice([0, 0, 1]), **kw)
             if fr is None:
                 continue
             tr['kind'] = kind
+            if fam is not None:
+                family_of[rid] = fam['id']
             recs.extend(fr)
             truths[rid] = tr
             rid += 1
@@ -251,6 +262,40 @@ def run_case(case):
             if e1 != e2:
                 acc.violate('mirror-deduplication-differs', f'fragments {i},{j}: equal={e1} on the original strand but {e2} on the mirrored reference ({cfg})',
                             {'config': cfg, 'a': {k: str(v) for k, v in truths[i].items()}, 'b': {k: str(v) for k, v in truths[j].items()}})
+    # ------------------------------------------------------------------ molecule level (scCHIC with an assignment radius)
+    if method == 'chic' and family_of and not invert and not nocigar:
+        import singlecellmultiomics.molecule as smm
+        fargs_r = dict(fargs, assignment_radius=5)
+        sites_by_id = {}
+        for label, rset in (('original', recs), ('mirror', mrecs)):
+            frr = build_fragments(header, rset, fclass, fargs_r, qf)
+            order = sorted(frr, key=lambda i: (frr[i].get_R1().reference_id, frr[i].get_span()[1] if frr[i].get_span()[1] is not None else -1, i))
+            mols = []
+            for i in order:
+                fr_ = frr[i]
+                if not fr_.is_valid():
+                    continue
+                for m_ in mols:
+                    if m_.add_fragment(fr_):
+                        break
+                else:
+                    mols.append(smm.CHICMolecule(fr_))
+            for m_ in mols:
+                m_.write_tags()
+            for i in order:
+                r1_ = frr[i].get_R1()
+                sites_by_id.setdefault(i, {})[label] = r1_.get_tag('DS') if r1_.has_tag('DS') else None
+        for i, fid in family_of.items():
+            d_ = sites_by_id.get(i, {})
+            if d_.get('original') is None or d_.get('mirror') is None:
+                continue
+            acc.count('molecule:family_sites_compared')
+            L_ = lens[truths[i]['contig']]
+            if d_['mirror'] != L_ - 1 - d_['original']:
+                acc.violate('mirror-site-asymmetric:chic:molecule-with-radius',
+                            f'scCHIC fragment {i} of a family of copies within 5 bp ({"reverse" if truths[i]["reverse"] else "forward"} strand), assignment radius 5: after '
+                            f'the molecule wrote its tags DS={d_["original"]}, on the mirrored reference DS={d_["mirror"]} expected {L_ - 1 - d_["original"]} ({cfg})',
+                            {'config': cfg, 'family': [(j, truths[j]['site'], truths[j]['reverse']) for j, f2 in family_of.items() if f2 == fid]})
     # ------------------------------------------------------------------ CLI
     if case['i'] % 3 == 0 and not invert:
         import pysam
